@@ -70,6 +70,17 @@ def init (n : Nat) (K : Nat → Nat → α) (eqc shrinkOn : Bool) (lin L U : Nat
     g := lin, gEdge := lin,
     lo := fun k => (0.0 : α) == L k, up := fun k => (0.0 : α) == U k }
 
+/-- constructor of `SvmProblem` + `BoxBasedShrinkingStrategy` for a problem that comes with non-zero coefficients
+(`BoxedSVMProblem`, used by the one-class SVM: `alpha = 1/n`): the `SvmProblem` constructor subtracts `q[a] * alpha(i)` row
+by row in index order and sets the status bits; `m_gradientEdge` starts as `linear` whatever `alpha` is -/
+def initWith (n : Nat) (K : Nat → Nat → α) (eqc shrinkOn : Bool) (lin L U a0 : Nat → α) : State α :=
+  let grad := (List.range n).foldl (fun (gr : Nat → α) i =>
+    if a0 i == (0.0 : α) then gr else fun k => gr k - K i k * a0 i) lin
+  { n := n, K := K, eqc := eqc, shrinkOn := shrinkOn, unshrinked := false, active := n,
+    perm := fun k => k, lin := lin, alpha := a0, diag := fun k => K k k, L := L, U := U,
+    g := grad, gEdge := lin,
+    lo := fun k => a0 k == L k, up := fun k => a0 k == U k }
+
 /-- `BoxBasedShrinkingStrategy::setInitialSolution(alpha)` on a freshly constructed problem
 (identity permutation): gradient and edge gradient are accumulated row by row in index order -/
 def setInitialSolution (s : State α) (a0 : Nat → α) : State α :=
